@@ -3,7 +3,10 @@
 package props
 
 import (
+	"bytes"
+	"context"
 	"strings"
+	"sync"
 
 	"verif/sim/core"
 	"verif/sim/refts"
@@ -63,6 +66,66 @@ func (d DescSpec) ToAstits() *astits.Descriptor {
 	return o
 }
 
+var (
+	opaqueOnce sync.Once
+	opaqueList []uint8
+)
+
+// opaqueTags returns the standard-range descriptor tags that this build of the library carries
+// as opaque bytes (Descriptor.Unknown) through Muxer and Demuxer. Which tags have a typed codec is
+// not fixed by any property (a later version may add one), so the list is learned from a
+// throw-away Muxer/Demuxer pair rather than assumed. If no candidate qualifies the user-defined
+// range is used instead.
+func opaqueTags() []uint8 {
+	opaqueOnce.Do(func() {
+		for _, t := range []uint8{0x02, 0x03, 0x09, 0x0b, 0x0c, 0x11, 0x1b, 0x38, 0x41, 0x5a, 0x66, 0x7b} {
+			if tagIsOpaque(t) {
+				opaqueList = append(opaqueList, t)
+			}
+		}
+		if len(opaqueList) == 0 {
+			opaqueList = []uint8{0x80, 0x91, 0xa2, 0xb3}
+		}
+	})
+	return opaqueList
+}
+
+func tagIsOpaque(tag uint8) (ok bool) {
+	defer func() {
+		if recover() != nil {
+			ok = false
+		}
+	}()
+	content := []byte{0x31, 0x32, 0x33, 0x34, 0x35}
+	var buf bytes.Buffer
+	m := astits.NewMuxer(context.Background(), &buf)
+	es := astits.PMTElementaryStream{ElementaryPID: 0x1ffd, StreamType: astits.StreamTypeH264Video,
+		ElementaryStreamDescriptors: []*astits.Descriptor{{Tag: tag, Length: uint8(len(content)), Unknown: &astits.DescriptorUnknown{Tag: tag, Content: content}}}}
+	if m.AddElementaryStream(es) != nil {
+		return false
+	}
+	m.SetPCRPID(0x1ffd)
+	if _, err := m.WriteTables(); err != nil {
+		return false
+	}
+	dmx := astits.NewDemuxer(context.Background(), bytes.NewReader(buf.Bytes()), astits.DemuxerOptPacketSize(188))
+	for i := 0; i < 8; i++ {
+		d, err := dmx.NextData()
+		if err != nil {
+			return false
+		}
+		if d.PMT == nil {
+			continue
+		}
+		if len(d.PMT.ElementaryStreams) != 1 || len(d.PMT.ElementaryStreams[0].ElementaryStreamDescriptors) != 1 {
+			return false
+		}
+		x := d.PMT.ElementaryStreams[0].ElementaryStreamDescriptors[0]
+		return x.Tag == tag && x.Unknown != nil && bytes.Equal(x.Unknown.Content, content)
+	}
+	return false
+}
+
 func genDesc(r *core.PRNG, maxData int) DescSpec {
 	var d DescSpec
 	switch r.Pick(5, 2, 2, 2, 2, 1, 1) {
@@ -72,9 +135,12 @@ func genDesc(r *core.PRNG, maxData int) DescSpec {
 			d.Data = nil // a descriptor with an empty body
 		}
 	case 1:
-		// tags below 0x80 that the library has no typed decoder for
-		tags := []uint8{0x02, 0x03, 0x09, 0x0b, 0x0c, 0x11, 0x1b, 0x38, 0x41, 0x5a, 0x66, 0x7b}
+		// tags below 0x80 that the library has no typed decoder for (learned, see opaqueTags)
+		tags := opaqueTags()
 		d = DescSpec{Kind: "unknown", Tag: tags[r.Intn(len(tags))], Data: r.Bytes(r.Range(1, maxData))}
+		if tags[0] >= 0x80 {
+			d.Kind = "user"
+		}
 	case 2:
 		d = DescSpec{Kind: "streamid", Tag: 0x52, Data: r.Bytes(1)}
 	case 3:
@@ -445,7 +511,7 @@ func Payload(tag, n int) []byte {
 
 // MuxOp is one call of a Muxer history.
 type MuxOp struct {
-	Op     string     `json:"op"`            // add | remove | setpcr | tables | data | packet
+	Op     string     `json:"op"`            // add | remove | setpcr | tables | data | packet | churn
 	H      int        `json:"h"`             // handle = index of the add op this call targets; -1: use PID
 	PID    uint16     `json:"pid,omitempty"` // add: explicit PID (0 = automatic); others: raw PID when H<0
 	Type   uint8      `json:"type,omitempty"`
@@ -456,6 +522,10 @@ type MuxOp struct {
 	Tag    int        `json:"tag,omitempty"`
 	Pkt    *PktSpec   `json:"pkt,omitempty"`
 	NilPES bool       `json:"-"`
+	// churn: N cycles of {add with automatic PID, WriteTables (reveals the PID), remove}; the
+	// first Keep streams are not removed. Drives the automatic allocator through its whole range.
+	N    int `json:"n,omitempty"`
+	Keep int `json:"keep,omitempty"`
 }
 
 // PktSpec is the argument of a WritePacket call.
